@@ -179,16 +179,19 @@ Section Monitor.
   Notation pairs_of := (pairs_of aid cf).
 
   (* one consumed pair: it names the controller, and - when executors are configured - an
-     executor holding the role signed exactly ("execute_op", contract, fn, args, pred, salt) *)
+     executor holding the role signed exactly ("execute_op", contract, fn, args, pred, salt),
+     or the controller itself holds the role and is named (end-to-end calls only) *)
   Notation pair_op := (pair_op cf).
   Notation ops_of := (ops_of cf).
-  Definition pair_ok (xa : list (addr * op)) (before : obs) (p : ctx * meta) : bool :=
+  Definition pair_ok (direct : bool) (xa : list (addr * op)) (before : obs) (p : ctx * meta) : bool :=
     match pair_op p with
     | None => false
     | Some o =>
         if ob_count before EXECUTOR =? 0 then true
         else match m_exec (snd p) with
-             | Some x => ob_has before x EXECUTOR && negb (N.eqb x (self cf)) && xa_has xa x o
+             | Some x =>
+                 (* the controller as executor needs no signature inside its own entry point (invoker-contract rule) *)
+                 ob_has before x EXECUTOR && (if N.eqb x (self cf) then negb direct else xa_has xa x o)
              | None => false
              end
     end.
@@ -296,7 +299,7 @@ Section Monitor.
                  let xa := a_exec (authz_of c) in
                  let executed := map hash (ops_of pairs)
                                  ++ match c with ExecuteOp o _ _ _ => [hash o] | _ => [] end in
-                 if forallb (pair_ok xa before) pairs
+                 if forallb (pair_ok (is_direct c) xa before) pairs
                     && role_ok c before
                     && same_keys (o_ops before) (o_ops after)
                     && forallb (op_step_ok c executed before) (o_ops after)
